@@ -20,7 +20,7 @@ pub fn def() -> CheckDef {
         level: "exploration",
         assumptions: &["operations whose meaning the statement leaves open are not generated: create with an existing id, update/delete of an absent id, range operators on text, paging without a total order", "text order is byte order of the UTF-8 string", "no storage errors are injected (only close/reopen)"],
         probes: &["probe.sqlite", "probe.mem", "probe.reopen", "probe.query_or", "probe.query_empty_subcondition", "probe.query_null", "probe.order_numeric", "probe.order_text", "probe.paged", "probe.update", "probe.delete"],
-        quick_cases: 3000,
+        quick_cases: 6000,
         no_shrink: &["models", "starts", "engine", "faults"],
     }
 }
